@@ -21,6 +21,7 @@ import traceback
 
 VERIF = os.path.dirname(os.path.dirname(os.path.abspath(__file__)))
 REPO = os.environ.get('VERIF_REPO', '/repo')
+OUT = os.environ.get('VERIF_OUT') or VERIF    # evidence/ and replays/ are written below this (scratch dir for mutation demos)
 TIER = 'quick'
 SEED = 0
 
@@ -198,13 +199,13 @@ def load_findings():
 
 def write_replay(pid, sig, case, detail, count):
     h = hashlib.sha1((pid + sig + json.dumps(case, sort_keys=True, default=repr)).encode()).hexdigest()[:10]
-    os.makedirs(os.path.join(VERIF, 'replays'), exist_ok=True)
-    path = os.path.join(VERIF, 'replays', f'{pid}-{h}.json')
+    os.makedirs(os.path.join(OUT, 'replays'), exist_ok=True)
+    path = os.path.join(OUT, 'replays', f'{pid}-{h}.json')
     with open(path, 'w', encoding='utf-8') as f:
         json.dump({'property': pid, 'signature': sig, 'case': case, 'detail': detail, 'count': count,
                    'replay_cmd': f'bin/check {pid} --replay replays/{pid}-{h}.json'},
                   f, indent=1, default=repr)
-    testpath = os.path.join(VERIF, 'replays', f'test_{pid}_{h}.py')
+    testpath = os.path.join(OUT, 'replays', f'test_{pid}_{h}.py')
     with open(testpath, 'w', encoding='utf-8') as f:
         f.write(
             '# plain regression test replaying one recorded violation without the explorer\n'
@@ -213,7 +214,7 @@ def write_replay(pid, sig, case, detail, count):
             f'def test_{pid}_{h}():\n'
             f'    sigs = main.replay_signatures({pid!r}, os.path.join(os.path.dirname(__file__), {pid + "-" + h + ".json"!r}))\n'
             f'    assert {sig!r} not in sigs, "violation reproduced: " + {sig!r}\n')
-    return os.path.relpath(path, VERIF)
+    return os.path.relpath(path, OUT)
 
 
 def validate_evidence(path):
@@ -246,8 +247,8 @@ def write_evidence(ctx, wall_s, nviol):
     cov.update(ctx.coverage)
     ev = dict(property_id=ctx.pid, tier=ctx.tier, seed=ctx.seed, level='model_checking', coverage=cov,
               assumptions=ctx.assumptions, wall_s=round(wall_s, 2), violations=nviol)
-    os.makedirs(os.path.join(VERIF, 'evidence'), exist_ok=True)
-    path = os.path.join(VERIF, 'evidence', f'{ctx.pid}.json')
+    os.makedirs(os.path.join(OUT, 'evidence'), exist_ok=True)
+    path = os.path.join(OUT, 'evidence', f'{ctx.pid}.json')
     with open(path, 'w', encoding='utf-8') as f:
         json.dump(ev, f, indent=1, default=repr)
         f.write('\n')
